@@ -232,7 +232,14 @@ func (self *AofFile) Open() error {
 		} else if self.size < 12 {
 			err = self.file.Truncate(0)
 			if err == nil {
+				self.size = 0
 				err = self.WriteHeader()
+			}
+		} else if (self.size-12)%64 != 0 {
+			tornSize := (self.size - 12) % 64
+			err = self.file.Truncate(int64(self.size - tornSize))
+			if err == nil {
+				self.size -= tornSize
 			}
 		} else {
 			err = nil
